@@ -662,12 +662,23 @@ func jobC18(c *rt.Ctx) {
 					top := new(big.Int).Lsh(big.NewInt(1), w)
 					mmax := new(big.Int).Mul(new(big.Int).SetUint64(bound), new(big.Int).SetUint64(k))
 					mmax.Rsh(mmax, w)
-					mm := mmax.Uint64()
-					step := uint64(1)
-					if mm > 96 && !c.Thorough() {
-						step = mm / 96
+					mm := mmax
+					// (a word size below the limb size gives astronomically many wrap points: that word size
+					// is not one the layout's column products are reduced by; skipped. The rest is thinned
+					// to at most 96 (thorough 2048) multiples per constant, word size and limb.)
+					if !mm.IsUint64() || mm.Uint64() > 1<<20 {
+						continue
 					}
-					for m := uint64(1); m <= mm && mm < 1<<22; m += step {
+					mmv := mm.Uint64()
+					step := uint64(1)
+					lim := uint64(96)
+					if c.Thorough() {
+						lim = 2048
+					}
+					if mmv > lim {
+						step = mmv / lim
+					}
+					for m := uint64(1); m <= mmv; m += step {
 						v := new(big.Int).Mul(new(big.Int).SetUint64(m), top)
 						v.Div(v, new(big.Int).SetUint64(k))
 						for j := uint64(0); j < 2; j++ {
